@@ -38,6 +38,7 @@ ALLOW = ('Allow', 'OPTIONS,GET')
 WS = ''.join(map(chr, [9, 10, 11, 12, 13, 28, 29, 30, 31, 32, 0x85, 0xa0, 0x1680] + list(range(0x2000, 0x200b))
                   + [0x2028, 0x2029, 0x202f, 0x205f, 0x3000]))
 SIG_F12 = 'C17:asgi-ignores-name-param'
+SIG_F12B = 'C17:asgi-raises-on-non-ascii-query'
 METHODS = ['GET', 'HEAD', 'POST', 'PUT', 'DELETE', 'OPTIONS', 'PATCH', 'get', 'Options', 'TRACE', '']
 
 
@@ -122,6 +123,23 @@ def want_names(q):
 
 
 # ------------------------------------------------------------------------------------------------ the real code
+def err_class(e):
+    """error class only, in the model's vocabulary"""
+    return 'UnicodeError' if isinstance(e, UnicodeError) else type(e).__name__
+
+
+def non_ascii_query(q):
+    """does the query string carry a raw or percent-escaped non-ASCII byte? (own scanner)"""
+    if any(ord(c) > 127 for c in q):
+        return True
+    i = 0
+    while i + 2 < len(q):
+        if q[i] == '%' and q[i + 1] in '89abcdefABCDEF' and q[i + 2] in '0123456789abcdefABCDEF':
+            return True
+        i += 1
+    return False
+
+
 class World:
     def __init__(self):
         from prometheus_client import CollectorRegistry, Counter, Gauge, Histogram, Info
@@ -188,7 +206,7 @@ class World:
         try:
             body = b''.join(self.wsgi[disable](env, start_response))
         except Exception as e:
-            return {'error': type(e).__name__}
+            return {'error': err_class(e)}
         return {'status': got.get('status'), 'headers': got.get('headers'), 'body': body, 'collects': self.collects}
 
     def fields(self, case):
@@ -215,7 +233,7 @@ class World:
         except StopIteration:
             pass
         except Exception as e:
-            return {'error': type(e).__name__}
+            return {'error': err_class(e)}
         if len(sent) != 2 or sent[0].get('type') != 'http.response.start' or sent[1].get('type') != 'http.response.body':
             return {'error': 'message-shape'}
         st = sent[0]['status']
@@ -228,7 +246,7 @@ class World:
         if not t.startswith('/') or any(not (33 <= ord(c) < 127) for c in t):
             return False
         for n, v in self.fields(case):
-            if any(ord(c) > 255 or c in '\r\n' for c in v) or v != v.lstrip(' \t') or v == '' or any(c in WS for c in v[-1:]):
+            if any(ord(c) > 255 or c in '\r\n' for c in v):
                 return False
             if any(not (33 <= ord(c) < 127) or c == ':' for c in n) or not n:
                 return False
@@ -322,7 +340,7 @@ def gen_query(rng):
             else:
                 pieces.append(rng.choice(NAME_KEYS) + '=' + v)
         elif r < 0.9:
-            pieces.append(rng.choice(OTHER_KEYS) + '=' + rng.choice(['1', 'up', '', 'reqs']))
+            pieces.append(rng.choice(OTHER_KEYS) + '=' + rng.choice(['1', 'up', '', 'reqs', '1', 'up', '%C3%A9', '%ff', 'a%20b']))
         else:
             pieces.append(rng.choice(['name[]', 'name%5B%5D', '=up', '&', 'name[]==', 'name[]=up=1']))
     return '&'.join(pieces)
@@ -330,7 +348,7 @@ def gen_query(rng):
 
 OTHER_HEADERS = [('Host', 'localhost:8000'), ('User-Agent', 'pv/1'), ('X-Accept', OM), ('Accept-Language', 'gzip'),
                  ('Accept-Charset', OM), ('Accept-Encodings', 'gzip'), ('Acceptx', OM), ('X-Accept-Encoding', 'gzip'),
-                 ('Content-Type', OM), ('Content-Encoding', 'gzip'), ('accept_encoding', 'gzip')]
+                 ('Content-Type', OM), ('Content-Encoding', 'gzip')]
 
 
 def corpus():
@@ -338,7 +356,7 @@ def corpus():
     base = dict(method='GET', path='/metrics', acc=None, ae=None, an='Accept', aen='Accept-Encoding', others=[], q='')
     def c(**kw):
         d = dict(base); d.update(kw); return d
-    out = [c(), c(q='name[]=up'), c(q='name%5B%5D=up&name[]=reqs_total'), c(q='name[]='), c(q='foo=1'),
+    out = [c(), c(q='name[]=up'), c(q='name%5B%5D=up&name[]=reqs_total'), c(q='name[]='), c(q='foo=1'), c(q='lang=%C3%A9'), c(q='x=%ff&name[]=up'),
            c(acc=[OM]), c(acc=[OM + '; version=1.0.0; charset=utf-8']), c(acc=[OM + ';version=1.0.0']), c(acc=[OM + '-foo']),
            c(acc=['x' + OM]), c(acc=['text/plain;q=0.5, ' + OM + ' ;q=0.9']), c(acc=['\xa0' + OM + '\u2003']), c(acc=[',,']),
            c(acc=['']), c(acc=[OM.upper()]), c(acc=[OM], q='name[]=up'),
@@ -389,9 +407,11 @@ def decoded_body(r):
     return r['body'], None
 
 
-def oracle_get(world, fe, r, acc, ae, names, compression):
+def oracle_get(world, fe, r, acc, ae, names, compression, q=''):
     """property oracle for one front-end's answer to a GET; returns list of (sig, what)"""
     if 'error' in r:
+        if fe == 'asgi' and r['error'] == 'UnicodeError' and non_ascii_query(q):
+            return [(SIG_F12B, 'ASGI app raises on a non-ASCII query string')]
         return [('C17:raises', '%s raised %s' % (fe, r['error']))]
     fails = []
     fmt = want_format(acc)
@@ -454,9 +474,12 @@ def enc_acc(v):
 
 def driver_line(case, disable):
     pstr = parse_qs(case['q'])
-    pbytes = parse_qs(case['q'].encode('utf-8'))
     ps = lib.enc_list(['%s>%s' % (lib.hx(k), ','.join(lib.hx(v) for v in vs)) for k, vs in pstr.items()])
-    pb = lib.enc_list(['%s>%s' % (lib.xb(k), ','.join(lib.xb(v) for v in vs)) for k, vs in pbytes.items()])
+    try:
+        pbytes = parse_qs(case['q'].encode('utf-8'))
+        pb = lib.enc_list(['%s>%s' % (lib.xb(k), ','.join(lib.xb(v) for v in vs)) for k, vs in pbytes.items()])
+    except UnicodeError:
+        pb = '!'        # parse_qs(<bytes>) raises on non-ASCII escapes / bytes (a fact about the standard library)
     oth = lib.enc_list(['%s>%s' % (lib.hx(n), lib.hx(v)) for n, v in case['others']])
     return 'c17 req %s %s %s %s %s %s %s %s %s %d' % (
         lib.hx(case['method']), '-' if case['path'] is None else lib.hx(case['path']), enc_acc(case['acc']), enc_acc(case['ae']),
@@ -472,7 +495,8 @@ def parse_obs(txt):
     if body in ('empty', 'err'):
         b = (body, None, None, 0)
     else:
-        f, rs, n = body.split(':')
+        f, rest = body.split(':', 1)
+        rs, n = rest.rsplit(':', 1)
         if rs == '-':
             restr = None
         else:
@@ -531,15 +555,15 @@ def eval_case(world, case):
         for d in (False, True):
             if not favicon:
                 fails += [(s, w + (' [disable_compression]' if d else '')) for s, w in
-                          oracle_get(world, 'wsgi', res['wsgi', d], acc_join, ae_join, names, not d)]
+                          oracle_get(world, 'wsgi', res['wsgi', d], acc_join, ae_join, names, not d, case['q'])]
             fails += [(s, w + (' [disable_compression]' if d else '')) for s, w in
-                      oracle_get(world, 'asgi', res['asgi', d], acc_join, ae_join, names, not d)]
+                      oracle_get(world, 'asgi', res['asgi', d], acc_join, ae_join, names, not d, case['q'])]
         if not dup:
-            fails += oracle_get(world, 'handler', res['handler', False], acc_join, ae_join, names, True)
+            fails += oracle_get(world, 'handler', res['handler', False], acc_join, ae_join, names, True, case['q'])
         # agreement on (status code, Content-Type, Content-Encoding, decoded body); ASGI is left out when it already failed
         # with the name[] class, so that class is reported under its own signature only
         if not favicon:
-            f12 = any(s == SIG_F12 for s, _ in fails)
+            f12 = any(s in (SIG_F12, SIG_F12B) for s, _ in fails)
             def view(r):
                 if 'error' in r: return ('error', r['error'])
                 return (str(r['status'])[:3], hval(r, 'Content-Type'), hval(r, 'Content-Encoding'), decoded_body(r)[0])
@@ -602,6 +626,7 @@ def run_cases(ctx, world, cases, verbose=False):
         lines.append(driver_line(c, True))
     replies = ctx.driver.run(lines)
     seen_sigs = set()
+    per_sig = {}
     for i, case in enumerate(cases):
         res, fails, notes = eval_case(world, case)
         key = json.dumps([case['method'], case['acc'], case['ae'], case['q'], case['path']], sort_keys=True)
@@ -622,11 +647,17 @@ def run_cases(ctx, world, cases, verbose=False):
                 c = shrink(world, case, sig)
                 again = [w for s, w in eval_case(world, c)[1] if s == sig]
                 what = again[0] if again else what
+            if sig == SIG_F12B:
+                what = ('ASGI app raises UnicodeEncodeError/UnicodeDecodeError on GET %s?%s (parse_qs on the bytes query string cannot '
+                        'handle non-ASCII escapes); WSGI and MetricsHandler answer 200' % (c['path'], c['q']))
             if sig == SIG_F12:
                 what = ('ASGI app ignores name[]: GET %s?%s must serve the registry restricted to %r (WSGI and MetricsHandler do) '
                         'but the ASGI app serves the unrestricted exposition' % (c['path'], c['q'], want_names(c['q'])))
             if verbose: print('ORACLE-FAIL', sig, what)
-            ctx.fail(sig, what, c)
+            per_sig[sig] = per_sig.get(sig, 0) + 1
+            ctx.count('oracle-fail ' + sig)
+            if per_sig[sig] <= 8:          # lib keeps 200 failures: one class must not crowd out another
+                ctx.fail(sig, what, c)
         if replies is None:
             continue
         for d in (False, True):
@@ -689,6 +720,13 @@ def run_functions(ctx, world, rng, n):
     if replies is not None:
         for fn, f in (('strip', str.strip), ('lower', str.lower)):
             for s in prim:
+                # the model's lower() keeps non-ASCII characters other than U+0130 / U+212A unchanged (they can never
+                # take part in a match with an ASCII literal), so it is compared on strings where that is also what
+                # Python does
+                if fn == 'lower' and any(ord(c) > 127 and c not in '\u0130\u212a' and c.lower() != c for c in s):
+                    ctx.count('fn str.lower not compared (cased non-ASCII)')
+                    k += 1
+                    continue
                 ctx.count('fn str.' + fn)
                 if replies[k] != 'ok ' + lib.hx(f(s)):
                     ctx.diverge('%r.%s(): python %r, model %s' % (s, fn, f(s), replies[k]), {'fn': fn, 'h': s})
@@ -709,7 +747,7 @@ def run(ctx):
                 'MetricsHandler; non-trivial = has an Accept, an Accept-Encoding or a query string; distinct by request content')
     check_interpreter_facts()
     world = World()
-    n = 700 if ctx.tier == 'quick' else 12000
+    n = 2500 if ctx.tier == 'quick' else 40000
     if ctx.broken:
         n *= 3
     cases = corpus() + [gen_case(ctx.rng) for _ in range(n)]
